@@ -971,6 +971,19 @@ def _dict_copy(ex, st, self_v, args, kwargs, node):
 @stub("const.get")
 def _const_get(ex, st, self_v, args, kwargs, node):
     d = self_v.val
+    a0 = args[0]
+    if isinstance(a0, SInt) and const_int(a0.t) is None and all(isinstance(k, int) for k in d):
+        # symbolic integer key into a constant dict: one path per key, plus the default
+        outs = []
+        cur = st
+        for k in d:
+            hit, cur = ex.split(cur, a0.t == int(k))
+            if hit is not None:
+                outs.append(ex.res(hit, ex.lift(d[k])))
+            if cur is None:
+                return outs
+        outs.append(ex.res(cur, args[1] if len(args) > 1 else NONE))
+        return outs
     k = ex.dict_key(args[0])
     if k in d:
         return R1(ex, st, ex.lift(d[k]))
